@@ -148,6 +148,112 @@ fn append_feature_variations(disk: &mut Disk, table: &str, fv: Vec<u8>) -> Resul
     Ok(())
 }
 
+/// A well-formed version 0 `kern` table keyed on `glyphs`; every choice is a function of
+/// (num_glyphs, glyphs, variant).
+pub fn build_kern(num_glyphs: u16, glyphs: &[u16], variant: u64) -> Vec<u8> {
+    let mut x = variant.wrapping_mul(0x9E37_79B9_7F4A_7C15) | 1;
+    let mut next = move || {
+        x ^= x << 13;
+        x ^= x >> 7;
+        x ^= x << 17;
+        x
+    };
+    let mut gs: Vec<u16> = glyphs.iter().copied().filter(|g| *g < num_glyphs).collect();
+    gs.sort_unstable();
+    gs.dedup();
+    let nsub = 1 + (next() % 3) as usize;
+    let mut out = Vec::new();
+    out.extend_from_slice(&0u16.to_be_bytes());
+    out.extend_from_slice(&(nsub as u16).to_be_bytes());
+    for _ in 0..nsub {
+        let format2 = next() % 2 == 0 && !gs.is_empty();
+        // horizontal mostly; minimum / cross-stream / override bits vary
+        let mut flags = 1u16;
+        if next() % 6 == 0 {
+            flags = 0;
+        }
+        if next() % 5 == 0 {
+            flags |= 2;
+        }
+        if next() % 7 == 0 {
+            flags |= 4;
+        }
+        if next() % 4 == 0 {
+            flags |= 8;
+        }
+        let mut sub = Vec::new();
+        sub.extend_from_slice(&0u16.to_be_bytes()); // version
+        sub.extend_from_slice(&0u16.to_be_bytes()); // length (patched)
+        sub.extend_from_slice(&(flags | if format2 { 0x0200 } else { 0 }).to_be_bytes());
+        if !format2 {
+            let mut pairs: Vec<(u16, u16, i16)> = Vec::new();
+            for (i, l) in gs.iter().enumerate() {
+                for (j, r) in gs.iter().enumerate() {
+                    if (next() % 3 == 0 || (i + j) % 5 == 0) && pairs.len() < 600 {
+                        pairs.push((*l, *r, ((next() % 400) as i16) - 200));
+                    }
+                }
+            }
+            pairs.sort_unstable();
+            let np = pairs.len() as u16;
+            let mut es = 0u16;
+            while (1u32 << (es + 1)) <= u32::from(np.max(1)) {
+                es += 1;
+            }
+            let sr = (1u16 << es) * 6;
+            sub.extend_from_slice(&np.to_be_bytes());
+            sub.extend_from_slice(&sr.to_be_bytes());
+            sub.extend_from_slice(&es.to_be_bytes());
+            sub.extend_from_slice(&(np.wrapping_mul(6).wrapping_sub(sr)).to_be_bytes());
+            for (l, r, v) in pairs {
+                sub.extend_from_slice(&l.to_be_bytes());
+                sub.extend_from_slice(&r.to_be_bytes());
+                sub.extend_from_slice(&v.to_be_bytes());
+            }
+        } else {
+            let first = gs[0];
+            let last = *gs.last().unwrap();
+            let span = usize::from(last - first) + 1;
+            let span = span.min(2000);
+            let lclasses = 1 + (next() % 4) as usize;
+            let rclasses = 1 + (next() % 4) as usize;
+            let row_width = (2 * (rclasses + 1)) as u16;
+            let header = 6 + 8;
+            let left_off = header;
+            let right_off = left_off + 4 + 2 * span;
+            let array_off = right_off + 4 + 2 * span;
+            sub.extend_from_slice(&row_width.to_be_bytes());
+            sub.extend_from_slice(&(left_off as u16).to_be_bytes());
+            sub.extend_from_slice(&(right_off as u16).to_be_bytes());
+            sub.extend_from_slice(&(array_off as u16).to_be_bytes());
+            for side in 0..2 {
+                sub.extend_from_slice(&first.to_be_bytes());
+                sub.extend_from_slice(&(span as u16).to_be_bytes());
+                for k in 0..span {
+                    let g = first + k as u16;
+                    let class = if gs.binary_search(&g).is_ok() {
+                        1 + (next() as usize) % if side == 0 { lclasses } else { rclasses }
+                    } else {
+                        0
+                    };
+                    let v = if side == 0 { class * usize::from(row_width) } else { class * 2 };
+                    sub.extend_from_slice(&(v as u16).to_be_bytes());
+                }
+            }
+            for r in 0..=lclasses {
+                for c in 0..=rclasses {
+                    let v: i16 = if r == 0 || c == 0 { 0 } else { ((next() % 300) as i16) - 150 };
+                    sub.extend_from_slice(&v.to_be_bytes());
+                }
+            }
+        }
+        let len = sub.len().min(0xFFFF) as u16;
+        sub[2..4].copy_from_slice(&len.to_be_bytes());
+        out.extend_from_slice(&sub);
+    }
+    out
+}
+
 fn num_glyphs(disk: &Disk) -> Result<u16, String> {
     disk.tables
         .get(&tag_from_str("maxp"))
@@ -234,6 +340,13 @@ pub fn apply(disk: &mut Disk, s: &Surgery) -> Result<(), String> {
                 .insert(u32::from_be_bytes(t.location_tag), Rc::new(t.location));
             disk.tables
                 .insert(u32::from_be_bytes(t.data_tag), Rc::new(t.data));
+            Ok(())
+        }
+        Surgery::InstallKern { glyphs, variant } => {
+            let n = num_glyphs(disk)?;
+            disk.tables
+                .insert(tag_from_str("kern"), Rc::new(build_kern(n, glyphs, *variant)));
+            disk.tables.remove(&tag_from_str("GPOS"));
             Ok(())
         }
         Surgery::InstallVertical { num_v_metrics } => {
